@@ -29,7 +29,9 @@ static int worker(int argc, char **argv) {
     hx_cfgspec_default(&cfgs[1]); cfgs[1].personality = HTP_SERVER_MINIMAL; cfgs[1].auto_destroy = 1; cfgs[1].parsers = 0;
     long work = 0;
     int rechunk = atoi(hx_arg(argc, argv, "--rechunk", "5"));
+    int only_rechunk = atoi(hx_arg(argc, argv, "--only-rechunk", "0"));     /* 1: skip the as-captured variant (a second job with another chunk size) */
     for (int i = 0; i < NCORP && i < maxitems; i++) for (int c = 0; c < 2; c++) for (int variant = 0; variant < 2; variant++) {
+        if (only_rechunk && variant == 0) continue;
         if (work++ % hx_shard_n != hx_shard_i) continue;
         if (hx_deadline_hit()) goto out;
         const corp_item *it = &CORP[i];
